@@ -147,3 +147,62 @@ def replace_node_text(src: str, node, new_text: str) -> str:
 def delete_stmt_text(src: str, node, replacement: str = "pass") -> str:
     """Replace a whole statement by `pass` keeping the indentation."""
     return replace_node_text(src, node, replacement)
+
+
+def canon(func, node, depth: int = 3) -> str:
+    """Normalised text of `node` after inlining the single-assignment locals of
+    `func` (so that renaming / introducing a local does not change the text) and
+    sorting the operands of commutative `and` / `or` / `|` chains."""
+    import copy
+    assigns = {}
+    counts = {}
+    for n in walk_no_nested(func):
+        tgt = None
+        if isinstance(n, ast.Assign) and len(n.targets) == 1 and isinstance(n.targets[0], ast.Name):
+            tgt, val = n.targets[0].id, n.value
+        elif isinstance(n, ast.AnnAssign) and isinstance(n.target, ast.Name) and n.value is not None:
+            tgt, val = n.target.id, n.value
+        if tgt:
+            counts[tgt] = counts.get(tgt, 0) + 1
+            assigns[tgt] = val
+        if isinstance(n, (ast.For, ast.AugAssign)):
+            for x in ast.walk(n.target):
+                if isinstance(x, ast.Name):
+                    counts[x.id] = counts.get(x.id, 0) + 2
+    single = {k: v for k, v in assigns.items() if counts.get(k) == 1}
+
+    class Inline(ast.NodeTransformer):
+        def __init__(self, d):
+            self.d = d
+
+        def visit_Name(self, n):
+            if isinstance(n.ctx, ast.Load) and n.id in single and self.d > 0:
+                return Inline(self.d - 1).visit(copy.deepcopy(single[n.id]))
+            return n
+
+    class Sort(ast.NodeTransformer):
+        def visit_BoolOp(self, n):
+            self.generic_visit(n)
+            n.values = sorted(n.values, key=norm)
+            return n
+
+        def visit_BinOp(self, n):
+            self.generic_visit(n)
+            if isinstance(n.op, ast.BitOr):
+                ops = []
+
+                def flat(x):
+                    if isinstance(x, ast.BinOp) and isinstance(x.op, ast.BitOr):
+                        flat(x.left)
+                        flat(x.right)
+                    else:
+                        ops.append(x)
+                flat(n)
+                ops = sorted(ops, key=norm)
+                out = ops[0]
+                for o in ops[1:]:
+                    out = ast.BinOp(left=out, op=ast.BitOr(), right=o)
+                return out
+            return n
+    t = Sort().visit(Inline(depth).visit(copy.deepcopy(node)))
+    return norm(ast.fix_missing_locations(t))
